@@ -702,3 +702,22 @@ def sym_equal(I, a, b, tol=1e-9):
         return bool(a == b)
     except Exception:
         return None
+
+
+
+def fallback_seqs(item, k=24):
+    """sample sequences for an item (composition-fixed when the item has npos/nneg), deterministic; charge-rich first"""
+    import itertools
+    rng = random.Random(str(sorted((k_, str(v)) for k_, v in item.items() if k_ in ("N", "npos", "nneg", "name"))))
+    N = item.get("N", 0)
+    if not N or N < 1:
+        return []
+    if "npos" in item:
+        return comp_samples(rng, N, item["npos"], item["nneg"], k)
+    out = []
+    if 3 ** N <= k:
+        out = ["".join(p) for p in itertools.product("KEG", repeat=N)]
+    else:
+        for _ in range(k // 2):
+            out.append("".join(rng.choice("KEDRGS") for _ in range(N)))
+    return out + sample_seqs(rng, N, max(2, k - len(out)))
